@@ -247,6 +247,107 @@ Lemma src_write_terminal_compact_kw_typed  m ms border :
   = do r <- SrcWrText.src_write_terminal_compact  m ms border; Ok (PWText None r).
 Proof. unfold SrcApiUri.src_write_terminal_compact_kw, SrcApiUri.src_write_terminal_compact_kwargs. cbv zeta. kw_eval. kw_roundtrip. kw_eval. reflexivity. Qed.
 
+(* the DEFAULTS of the 13 serializers (the documented values, written out here): called without any keyword argument the entry
+   is the generated definition at these values -- a changed default in a signature breaks the lemma *)
+(* write_svg(matrix, matrix_size, out): dark='#000', light=None, finder_dark=False, finder_light=False, data_dark=False,
+   data_light=False, version_dark=False, version_light=False, format_dark=False, format_light=False, alignment_dark=False,
+   alignment_light=False, timing_dark=False, timing_light=False, separator=False, dark_module=False, quiet_zone=False,
+   scale=1, border=None, xmldecl=True, svgns=True, title=None, desc=None, svgid=None, svgclass='segno', lineclass='qrline',
+   omitsize=False, unit=None, encoding='utf-8', svgversion=None, nl=True, draw_transparent=False *)
+Lemma src_write_svg_kw_defaults ext_q_repr ext_float_repr ext_re_sub m ms :
+  SrcApiUri.src_write_svg_kw ext_q_repr ext_float_repr ext_re_sub m ms []
+  = do r <- SrcSvg.src_write_svg_colorful ext_q_repr ext_float_repr ext_re_sub m ms (Some (PyCStr [35; 48; 48; 48])) None
+      None None None None None None None None None None None None None None None (PVInt 1) None true true None None None (Some
+      [115; 101; 103; 110; 111]) (Some [113; 114; 108; 105; 110; 101]) false None (Some [117; 116; 102; 45; 56]) None true
+      false; Ok (PWText (fst r) (snd r)).
+Proof. reflexivity. Qed.
+
+(* write_png(matrix, matrix_size, out): dark='#000', light='#fff', finder_dark=False, finder_light=False, data_dark=False,
+   data_light=False, version_dark=False, version_light=False, format_dark=False, format_light=False, alignment_dark=False,
+   alignment_light=False, timing_dark=False, timing_light=False, separator=False, dark_module=False, quiet_zone=False,
+   scale=1, border=None, compresslevel=9, dpi=None *)
+Lemma src_write_png_kw_defaults ext__color_to_rgb_or_rgba ext_crc32 ext_compress ext_set_order m ms :
+  SrcApiUri.src_write_png_kw ext__color_to_rgb_or_rgba ext_crc32 ext_compress ext_set_order m ms []
+  = do r <- SrcPng.src_write_png_colorful ext__color_to_rgb_or_rgba ext_crc32 ext_compress ext_set_order m ms (Some
+      (PyCStr [35; 48; 48; 48])) (Some (PyCStr [35; 102; 102; 102])) None None None None None None None None None None None
+      None None None None 1 None 9 None; Ok (PWBytes r).
+Proof. reflexivity. Qed.
+
+(* write_eps(matrix, matrix_size, out): scale=1, border=None, dark='#000', light=None *)
+Lemma src_write_eps_kw_defaults ext_q_repr ext_time_strftime ext_textwrap_wrap m ms :
+  SrcApiUri.src_write_eps_kw ext_q_repr ext_time_strftime ext_textwrap_wrap m ms []
+  = do r <- SrcVecEps.src_write_eps ext_q_repr ext_time_strftime ext_textwrap_wrap m ms (PVInt 1) None (PyCStr [35; 48;
+      48; 48]) None; Ok (PWText None r).
+Proof. reflexivity. Qed.
+
+(* write_pdf(matrix, matrix_size, out): scale=1, border=None, dark='#000', light=None, compresslevel=9 *)
+Lemma src_write_pdf_kw_defaults ext_q_repr ext_float_repr ext_time_strftime ext_time_timezone ext_zlib_compress m ms :
+  SrcApiUri.src_write_pdf_kw ext_q_repr ext_float_repr ext_time_strftime ext_time_timezone ext_zlib_compress m ms []
+  = do r <- SrcVecPdf.src_write_pdf ext_q_repr ext_float_repr ext_time_strftime ext_time_timezone ext_zlib_compress m ms
+      (PVInt 1) None (PyCStr [35; 48; 48; 48]) None 9; Ok (PWBytes r).
+Proof. reflexivity. Qed.
+
+(* write_txt(matrix, matrix_size, out): border=None, dark='1', light='0' *)
+Lemma src_write_txt_kw_defaults  m ms :
+  SrcApiUri.src_write_txt_kw  m ms []
+  = do r <- SrcWrText.src_write_txt  m ms None [49] [48]; Ok (PWText None r).
+Proof. reflexivity. Qed.
+
+(* write_pbm(matrix, matrix_size, out): scale=1, border=None, plain=False *)
+Lemma src_write_pbm_kw_defaults  m ms :
+  SrcApiUri.src_write_pbm_kw  m ms []
+  = do r <- SrcWrNetpbm.src_write_pbm  m ms 1 None false; Ok (PWBytes r).
+Proof. reflexivity. Qed.
+
+(* write_pam(matrix, matrix_size, out): scale=1, border=None, dark='#000', light='#fff' *)
+Lemma src_write_pam_kw_defaults ext__color_to_rgb_or_rgba m ms :
+  SrcApiUri.src_write_pam_kw ext__color_to_rgb_or_rgba m ms []
+  = do r <- SrcWrNetpbm.src_write_pam ext__color_to_rgb_or_rgba m ms 1 None (Some (PyCStr [35; 48; 48; 48])) (Some (PyCStr
+      [35; 102; 102; 102])); Ok (PWBytes r).
+Proof. reflexivity. Qed.
+
+(* write_ppm(matrix, matrix_size, out): dark='#000', light='#fff', finder_dark=False, finder_light=False, data_dark=False,
+   data_light=False, version_dark=False, version_light=False, format_dark=False, format_light=False, alignment_dark=False,
+   alignment_light=False, timing_dark=False, timing_light=False, separator=False, dark_module=False, quiet_zone=False,
+   scale=1, border=None *)
+Lemma src_write_ppm_kw_defaults ext__color_to_rgb m ms :
+  SrcApiUri.src_write_ppm_kw ext__color_to_rgb m ms []
+  = do r <- SrcColorful.src_write_ppm_colorful ext__color_to_rgb m ms (Some (PyCStr [35; 48; 48; 48])) (Some (PyCStr [35;
+      102; 102; 102])) None None None None None None None None None None None None None None None 1 None; Ok (PWBytes r).
+Proof. reflexivity. Qed.
+
+(* write_xpm(matrix, matrix_size, out): scale=1, border=None, dark='#000', light='#fff', name='img' *)
+Lemma src_write_xpm_kw_defaults ext__color_to_rgb_xpm m ms :
+  SrcApiUri.src_write_xpm_kw ext__color_to_rgb_xpm m ms []
+  = do r <- SrcWrText.src_write_xpm ext__color_to_rgb_xpm m ms 1 None (Some (PyCStr [35; 48; 48; 48])) (Some (PyCStr [35;
+      102; 102; 102])) [105; 109; 103]; Ok (PWText None r).
+Proof. reflexivity. Qed.
+
+(* write_xbm(matrix, matrix_size, out): scale=1, border=None, name='img' *)
+Lemma src_write_xbm_kw_defaults  m ms :
+  SrcApiUri.src_write_xbm_kw  m ms []
+  = do r <- SrcWrText.src_write_xbm  m ms 1 None [105; 109; 103]; Ok (PWText None r).
+Proof. reflexivity. Qed.
+
+(* write_tex(matrix, matrix_size, out): scale=1, border=None, dark='black', unit='pt', url=None *)
+Lemma src_write_tex_kw_defaults ext_q_repr ext_time_strftime m ms :
+  SrcApiUri.src_write_tex_kw ext_q_repr ext_time_strftime m ms []
+  = do r <- SrcVecTex.src_write_tex ext_q_repr ext_time_strftime m ms (PVInt 1) None (Some [98; 108; 97; 99; 107]) [112;
+      116] None; Ok (PWText None r).
+Proof. reflexivity. Qed.
+
+(* write_terminal(matrix, matrix_size, out): border=None *)
+Lemma src_write_terminal_kw_defaults  m ms :
+  SrcApiUri.src_write_terminal_kw  m ms []
+  = do r <- SrcWrText.src_write_terminal  m ms None; Ok (PWText None r).
+Proof. reflexivity. Qed.
+
+(* write_terminal_compact(matrix, matrix_size, out): border=None *)
+Lemma src_write_terminal_compact_kw_defaults  m ms :
+  SrcApiUri.src_write_terminal_compact_kw  m ms []
+  = do r <- SrcWrText.src_write_terminal_compact  m ms None; Ok (PWText None r).
+Proof. reflexivity. Qed.
+
 (* ------------------------------------------------------------------ writers.save with the serializer call connected *)
 Section Save.
   Variable ext_q_repr : Q -> list Z.
@@ -765,6 +866,8 @@ Section SvgUriModel.
 End SvgUriModel.
 
 Print Assumptions src_write_png_kw_typed.
+Print Assumptions src_write_svg_kw_defaults.
+Print Assumptions src_write_png_kw_defaults.
 Print Assumptions src_write_svg_kw_typed.
 Print Assumptions src_save_is_model.
 Print Assumptions call_serializer_table.
